@@ -278,7 +278,7 @@ class HostWorld:
     repository's deserialize_host_msg and handled by the controller, in order, when `deliver()` is called."""
 
     def __init__(self, ctx, hardware: str = "generic", qubits: int = 5, nv_compiler: bool = False, sc: Optional[C.Scenario] = None, meas_outcomes: Optional[List[int]] = None,
-                 epr: bool = False, bell_states: Optional[List[str]] = None):
+                 epr: bool = False, bell_states: Optional[List[str]] = None, linked_memory: bool = False):
         self.ctx, self.repo, self.ev = ctx, ctx.repo, ctx.ev
         self.epr = epr
         self.bell_states = list(bell_states or [])
@@ -331,6 +331,15 @@ class HostWorld:
         if r_[0] != "ok":
             raise AnalysisError(f"DebugConnection('alice', {hardware}, {qubits} qubits) cannot be constructed: {r_}")
         self.conn = r_[1]
+        if linked_memory:
+            # DebugConnection answers `shared_memory` with a fresh empty memory.  For the host's view of the controller's memory the
+            # connection object becomes an instance of the base connection class (whose `shared_memory` is the memory the controller
+            # registers for this node and application), its two abstract hooks - keep the committed message, name the network - supplied here
+            base = repo.get_class("netqasm.sdk.connection", "BaseNetQASMConnection")
+            dni = repo.get_class("netqasm.sdk.connection", "DebugNetworkInfo")
+            self.conn.cls = base
+            mo["_commit_serialized_message"] = lambda o_, raw_msg=None, *a_, **k_: o_.fields["storage"].append(raw_msg)
+            mo["_get_network_info"] = lambda o_, *a_, **k_: ("class", dni)
         flavour = None
         if nv_compiler:
             fl = repo.get_class("netqasm.lang.instr.flavour", "NVFlavour")
